@@ -3,6 +3,7 @@ Props/C15.lean — property theorems for C15 (table.update / table.delete change
 predicate selects; nothing changes before execute()).
 
 Model: Impl/C15Dml.lean around the regenerated Gen.Dml.  `C15_full_statement` vs the proved part: bottom.
+`O` is the one other table a subquery inside a predicate may select from.
 -/
 import SqlframeModel.Lemmas.C15
 namespace Sqlframe
@@ -10,91 +11,141 @@ open Gen.Dml C15
 
 /-- the regenerated decisions no hypothesis excuses: default predicate TRUE, `table['c']` re-targeted
     to the physical table in predicate and assignment values, predicate alias stripped, statements
-    issued on the physical table, nothing executed at build time, execute() runs the statement -/
+    issued on the physical table, nothing executed at build time, execute() runs the statement; no loop
+    touches a reference that is qualified with a subquery's table -/
 theorem C15_flags_sound : flagsOk genFlags = true := by decide
 
-/-- **Re-qualification.** For every expression over the reference styles `table['c']` / `F.col('c')`
-    (structural induction inside `strip_mapQ` / `quals_mapQ`), every column list and row: the rewritten
-    expression, evaluated where the statement runs (`UPDATE t …` on the physical table), has the value
-    the user's expression has in a DataFrame on the handle — including the Binder-error case. -/
-theorem C15_requalify (e : QExpr) (cols : List Name) (r : Row) (hq : ∀ q ∈ e.quals, userScope q = true) :
-    evalQ dmlScope cols r (e.mapQ (qmap Gen.Dml.predMatches Gen.Dml.predTo)) = evalQ userScope cols r e ∧
-    evalQ dmlScope cols r (e.mapQ (qmap Gen.Dml.rhsMatches Gen.Dml.rhsTo)) = evalQ userScope cols r e := by
-  obtain ⟨_, hpc, hpt, _, hrc, hrt, _, _, _, _⟩ := flagsOk_iff genFlags C15_flags_sound
-  have hu : e.quals.all userScope = true := by
-    simp only [List.all_eq_true]; exact hq
-  have hall : ∀ (m : Qual → Bool) (to : Qual), m .cte = true → to = .phys →
-      (e.mapQ (qmap m to)).quals.all dmlScope = true := by
-    intro m to hc ht
-    rw [quals_mapQ]
-    simp only [List.all_map, List.all_eq_true, Function.comp]
-    intro q hqm
-    exact qmap_scope m to hc ht q (hq q hqm)
-  have ha1 := hall Gen.Dml.predMatches Gen.Dml.predTo hpc hpt
-  have ha2 := hall Gen.Dml.rhsMatches Gen.Dml.rhsTo hrc hrt
-  constructor
-  · simp only [evalQ, ha1, hu, strip_mapQ, Bool.true_and]
-  · simp only [evalQ, ha2, hu, strip_mapQ, Bool.true_and]
+/-- the dialect that reads a SQL-string predicate has Spark SQL's lexer (double-quoted tokens are
+    strings, backticks quote identifiers, a backslash escapes): `H_predDialect` holds for every input -/
+theorem C15_dialect_sound (d : Dml) : H_predDialect genFlags d := Or.inl (by decide)
 
-/-- the rewrite never changes which columns an expression reads, only their qualifiers -/
+/-- the predicate loop leaves bare names alone: `H_predCapture` holds for every input -/
+theorem C15_capture_sound (ocols : List Name) (d : Dml) : H_predCapture genFlags ocols d := Or.inl (by decide)
+
+/-- **Re-qualification.** For every expression over the reference styles `table['c']` / `F.col('c')` —
+    subqueries on another table included, at any nesting depth (structural induction inside
+    `evalS_requal` / `binds_requal`) — every column list and row: the rewritten expression, evaluated where
+    the statement runs (`UPDATE t …` on the physical table), has the value the user's expression has in a
+    DataFrame on the handle, the Binder-error case included.  For the predicate loop as it is
+    (`H_predCapture`), and for the assignment-value loop on expressions over the row's own values. -/
+theorem C15_requalify (O : Table) (e : QExpr) (cols : List Name) (r : Row) (hq : ∀ q ∈ e.quals, userScope q = true) :
+    (H_predCapture genFlags O.cols (.delete (.expr e false)) →
+      evalQ dmlScope O cols r (e.mapQ (qmap Gen.Dml.predMatches Gen.Dml.predTo)) = evalQ userScope O cols r e) ∧
+    (e.flat = true →
+      evalQ dmlScope O cols r (e.mapQ (qmap Gen.Dml.rhsMatches Gen.Dml.rhsTo)) = evalQ userScope O cols r e) := by
+  obtain ⟨_, hpc, hpt, _, hrc, hrt, _, _, _, _, hps, hrs⟩ := flagsOk_iff genFlags C15_flags_sound
+  constructor
+  · intro hcap
+    obtain ⟨h1, h2⟩ := requal_ok Gen.Dml.predMatches Gen.Dml.predTo hpc hpt hps O cols e hq hcap
+    simp only [evalQ, h1 r, h2]
+  · intro hf
+    obtain ⟨h1, h2⟩ := requal_ok Gen.Dml.rhsMatches Gen.Dml.rhsTo hrc hrt hrs O cols e hq (Or.inr (flat_noCapture O.cols e hf))
+    simp only [evalQ, h1 r, h2]
+
+/-- the rewrite never changes the shape of an expression, only qualifiers — everywhere, subqueries included -/
 theorem C15_requalify_shape (f : Qual → Qual) (e : QExpr) :
-    (e.mapQ f).strip = e.strip ∧ (e.mapQ f).quals = e.quals.map f := ⟨strip_mapQ f e, quals_mapQ f e⟩
+    (e.mapQ f).quals = e.quals.map f ∧ (e.mapQ f).flat = e.flat := by
+  refine ⟨quals_mapQ f e, ?_⟩
+  induction e with
+  | col q n => rfl
+  | lit v => rfl
+  | tok r d => rfl
+  | bin op a b iha ihb => simp [QExpr.mapQ, QExpr.flat, iha, ihb]
+  | not a ih => simpa [QExpr.mapQ, QExpr.flat] using ih
+  | neg a ih => simpa [QExpr.mapQ, QExpr.flat] using ih
+  | isNull a ih => simpa [QExpr.mapQ, QExpr.flat] using ih
+  | ite c t e ihc iht ihe => simp [QExpr.mapQ, QExpr.flat, ihc, iht, ihe]
+  | inList a vs ih => simpa [QExpr.mapQ, QExpr.flat] using ih
+  | like a p ih => simpa [QExpr.mapQ, QExpr.flat] using ih
+  | inSub a s w _ _ _ => rfl
+  | exists_ w _ => rfl
+
+/-- **Why a loop that also re-targets bare names is wrong.**  For *any* decisions `m`, `to` that send a
+    bare name to the physical table: inside a subquery whose table has a column `n`, the rewritten
+    reference reads the target row's `n`, the user's reference the subquery row's `n`. -/
+theorem C15_capture_changes_meaning (m : Qual → Bool) (O : Table) (cols : List Name) (r i : Row) (inner : List Row) (n : Name)
+    (hm : m .none = true) (hn : n ∈ O.cols) :
+    evalS O cols r ((QExpr.col .none n).mapQ (qmap m .phys)) (i :: inner) = lookup cols r n ∧
+    evalS O cols r (QExpr.col .none n) (i :: inner) = lookup O.cols i n := by
+  simp [QExpr.mapQ, qmap, hm, evalS, resolve, hn]
+
+/-- **SQL text.** What the lexer of `predLex` makes of a SQL-string predicate is what Spark SQL makes of it:
+    for every syntax tree — same value in every row and subquery context, same binding — provided the
+    lexer is Spark's or the text has no double-quoted token, backslash or backtick. -/
+theorem C15_sql_reading (lx : Lex) (O : Table) (cols : List Name) (r : Row) (e : QExpr) (inner : List Row)
+    (h : lx = sparkLex ∨ e.plainToks = true) :
+    evalS O cols r (e.readTok lx) inner = evalS O cols r e inner ∧
+    (∀ sc ins, binds sc O.cols cols (e.readTok lx) ins = binds sc O.cols cols e ins) := by
+  rcases h with h | h
+  · rw [h, readTok_spark]; exact ⟨rfl, fun _ _ => rfl⟩
+  · exact ⟨readTok_plain_eval lx O cols r e inner h, fun sc ins => readTok_plain_binds lx sc O.cols cols e ins h⟩
+
+/-- a lexer that takes double-quoted tokens for identifiers reads `"x"` as the column `x`, Spark SQL as
+    the string 'x' — for every such lexer and every token -/
+theorem C15_dq_reading (lx : Lex) (raw : String) (h : lx.dqString = false) :
+    (QExpr.tok raw true).readTok lx = .col .none raw ∧
+    ∀ O cols r inner, evalS O cols r (QExpr.tok raw true) inner = .str (String.ofList (unescape raw.toList)) := by
+  simp [QExpr.readTok, h, evalS, tokVal]
 
 /-- One statement, for every decision setting that is sound where no hypothesis excuses it. -/
-theorem C15.dml_generic (fl : Flags) (hok : flagsOk fl = true) (d : Dml) (T : Table) (hwf : d.WF)
-    (hs : InScope fl d) : applyDml fl d T = specDml d T := by
-  obtain ⟨_, _, _, _, _, _, hut, hdt, _, _⟩ := flagsOk_iff fl hok
-  obtain ⟨hrhs, hpu, hpstr, hral⟩ := hs
+theorem C15.dml_generic (fl : Flags) (hok : flagsOk fl = true) (O : Table) (d : Dml) (T : Table) (hwf : d.WF)
+    (hs : InScope fl O.cols d) : applyDml fl O d T = specDml O d T := by
+  obtain ⟨_, _, _, _, _, _, hut, hdt, _, _, _, _⟩ := flagsOk_iff fl hok
+  obtain ⟨hrhs, hpu, hpstr, hral, hcap, hdia⟩ := hs
   cases d with
   | update sets p ral =>
     have hsal : (ral && !fl.rhsAliasStripped) = false := by
       rcases hral with h | h
       · simp [h]
       · simp only [Dml.rhsAliased] at h; simp [h]
-    obtain ⟨hq, hqs, hsql⟩ := hwf
-    obtain ⟨c, hc, hcs, hcb⟩ := buildPred_ok fl hok p T.cols hq hpu hpstr
-    obtain ⟨ss, hss, hstrip, hbind⟩ := buildSets_ok fl hok sets T.cols hqs hrhs
-    simp only [applyDml, build, hc, hss, Option.bind, execStmt, hut, hcb, hbind, hcs, hstrip, specDml, hsal]
-    have e1 : (decide True && !false && !false) = true := by decide
-    rw [e1, Bool.true_and, Bool.and_assoc]
+    obtain ⟨hq, hqs, hsql, hflat⟩ := hwf
+    obtain ⟨c, hc, hcs, hcb⟩ := buildPred_ok fl hok p O T.cols hq hpu hpstr hcap hdia
+    have hqs' : ∀ s ∈ sets, ∀ q ∈ s.2.quals, userScope q = true := by
+      intro s hs q hq'
+      rcases hqs s hs q hq' with h | h <;> simp [h, userScope]
+    obtain ⟨ss, hss, hasg, hbind⟩ := buildSets_ok fl hok sets O T.cols hqs' hflat hrhs
+    simp only [applyDml, build, hc, hss, Option.bind, execStmt, hut, hcb, hbind, specDml, hsal,
+      sqlUpdate_congr O T sets ss (specPred p) c hcs hasg]
+    simp
   | delete p =>
     obtain ⟨hq, hsql⟩ := hwf
-    obtain ⟨c, hc, hcs, hcb⟩ := buildPred_ok fl hok p T.cols hq hpu hpstr
-    simp only [applyDml, build, hc, Option.bind, execStmt, hdt, hcb, hcs, specDml]
+    obtain ⟨c, hc, hcs, hcb⟩ := buildPred_ok fl hok p O T.cols hq hpu hpstr hcap hdia
+    simp only [applyDml, build, hc, Option.bind, execStmt, hdt, hcb, specDml, sqlDelete_congr O T (specPred p) c hcs]
     simp
 
 /-- **update.** `table.update(sets, where).execute()` on any table: the rows are
     `rows.map (fun r => if pred r = TRUE then assign r else r)`, `assign` evaluating every right-hand
     side on the old row; an invalid call (unknown column, a column assigned twice) changes nothing. -/
-theorem C15_update (sets : List (Name × QExpr)) (p : PredIn) (ral : Bool) (T : Table) (hwf : (Dml.update sets p ral).WF)
-    (hs : InScope genFlags (.update sets p ral)) :
-    applyDml genFlags (.update sets p ral) T =
-      (if refsIn T.cols (specPred p) && sets.all (fun s => decide (s.1 ∈ T.cols) && refsIn T.cols s.2.strip) && decide (sets.map (·.1)).Nodup
+theorem C15_update (O : Table) (sets : List (Name × QExpr)) (p : PredIn) (ral : Bool) (T : Table) (hwf : (Dml.update sets p ral).WF)
+    (hs : InScope genFlags O.cols (.update sets p ral)) :
+    applyDml genFlags O (.update sets p ral) T =
+      (if binds userScope O.cols T.cols (specPred p) false && setsBind userScope O.cols T.cols sets
        then some { T with rows := T.rows.map (fun r =>
-          if isTrue (eval T.cols r (specPred p)) then assignRow T.cols (sets.map (fun s => (s.1, s.2.strip))) r else r) }
+          if isTrue (evalS O T.cols r (specPred p) []) then assignRow O T.cols sets r else r) }
        else none) := by
-  rw [C15.dml_generic genFlags C15_flags_sound _ T hwf hs]
+  rw [C15.dml_generic genFlags C15_flags_sound O _ T hwf hs]
   rfl
 
 /-- **delete.** exactly the rows whose predicate is TRUE are removed -/
-theorem C15_delete (p : PredIn) (T : Table) (hwf : (Dml.delete p).WF) (hs : InScope genFlags (.delete p)) :
-    applyDml genFlags (.delete p) T =
-      (if refsIn T.cols (specPred p) then some { T with rows := T.rows.filter (fun r => !isTrue (eval T.cols r (specPred p))) } else none) := by
-  rw [C15.dml_generic genFlags C15_flags_sound _ T hwf hs]
+theorem C15_delete (O : Table) (p : PredIn) (T : Table) (hwf : (Dml.delete p).WF) (hs : InScope genFlags O.cols (.delete p)) :
+    applyDml genFlags O (.delete p) T =
+      (if binds userScope O.cols T.cols (specPred p) false
+       then some { T with rows := T.rows.filter (fun r => !isTrue (evalS O T.cols r (specPred p) [])) } else none) := by
+  rw [C15.dml_generic genFlags C15_flags_sound O _ T hwf hs]
   rfl
 
 /-- **NULL predicate.** A row for which the predicate is NULL (or FALSE) is neither updated nor deleted. -/
-theorem C15_null_pred (d : Dml) (T T' : Table) (hwf : d.WF) (hs : InScope genFlags d)
-    (h : applyDml genFlags d T = some T')
-    (hnull : ∀ r ∈ T.rows, eval T.cols r (specPred d.pred) ≠ .bool true) : T' = T := by
-  rw [C15.dml_generic genFlags C15_flags_sound d T hwf hs] at h
+theorem C15_null_pred (O : Table) (d : Dml) (T T' : Table) (hwf : d.WF) (hs : InScope genFlags O.cols d)
+    (h : applyDml genFlags O d T = some T')
+    (hnull : ∀ r ∈ T.rows, evalS O T.cols r (specPred d.pred) [] ≠ .bool true) : T' = T := by
+  rw [C15.dml_generic genFlags C15_flags_sound O d T hwf hs] at h
   cases d with
   | update sets p ral =>
     simp only [specDml] at h
     split at h
     · simp only [Option.some.injEq] at h
       subst h
-      have : T.rows.map (fun r => if isTrue (eval T.cols r (specPred p)) then assignRow T.cols (sets.map (fun s => (s.1, s.2.strip))) r else r) = T.rows.map id := by
+      have : T.rows.map (fun r => if isTrue (evalS O T.cols r (specPred p) []) then assignRow O T.cols sets r else r) = T.rows.map id := by
         apply List.map_congr_left
         intro r hr
         have := hnull r hr
@@ -107,7 +158,7 @@ theorem C15_null_pred (d : Dml) (T T' : Table) (hwf : d.WF) (hs : InScope genFla
     split at h
     · simp only [Option.some.injEq] at h
       subst h
-      have : T.rows.filter (fun r => !isTrue (eval T.cols r (specPred p))) = T.rows := by
+      have : T.rows.filter (fun r => !isTrue (evalS O T.cols r (specPred p) [])) = T.rows := by
         apply List.filter_eq_self.mpr
         intro r hr
         have := hnull r hr
@@ -116,35 +167,91 @@ theorem C15_null_pred (d : Dml) (T T' : Table) (hwf : d.WF) (hs : InScope genFla
       simp [sqlDelete, this]
     · simp at h
 
+/-- **No excluded middle.** In every row and context, `p OR NOT p` is TRUE exactly when `p` is a (non-NULL)
+    boolean, and NULL otherwise; likewise `NOT (p AND NOT p)`.  So neither is the constant TRUE:
+    folding them (as a two-valued simplifier does) selects the rows on which `p` is NULL. -/
+theorem C15_no_excluded_middle (O : Table) (cols : List Name) (r : Row) (inner : List Row) (p : QExpr) :
+    evalS O cols r (.bin .or p (.not p)) inner = (match evalS O cols r p inner with | .bool _ => .bool true | _ => .null) ∧
+    evalS O cols r (.not (.bin .and p (.not p))) inner = (match evalS O cols r p inner with | .bool _ => .bool true | _ => .null) := by
+  simp only [evalS, binSem]
+  cases evalS O cols r p inner with
+  | bool b => cases b <;> simp [or3, and3, not3]
+  | null => simp [or3, and3, not3]
+  | int i => simp [or3, and3, not3]
+  | str s => simp [or3, and3, not3]
+
+/-- `delete(p | ~p)` keeps exactly the rows on which `p` is NULL (or not a boolean) -/
+theorem C15_delete_tautology (O : Table) (e : QExpr) (T : Table) (hwf : (Dml.delete (.expr (.bin .or e (.not e)) false)).WF)
+    (hs : InScope genFlags O.cols (.delete (.expr (.bin .or e (.not e)) false)))
+    (hb : binds userScope O.cols T.cols e false = true) :
+    applyDml genFlags O (.delete (.expr (.bin .or e (.not e)) false)) T =
+      some { T with rows := T.rows.filter (fun r => match evalS O T.cols r e [] with | .bool _ => false | _ => true) } := by
+  rw [C15_delete O _ T hwf hs]
+  simp only [specPred, binds, hb, Bool.and_self, if_true]
+  congr 2
+  apply List.filter_congr
+  intro r _
+  rw [(C15_no_excluded_middle O T.cols r [] e).1]
+  cases evalS O T.cols r e [] <;> simp [isTrue]
+
+/-- **IN-lists.** `a IN (v1, …, vn)` is the three-valued `a = v1 OR … OR a = vn` (for every list, by induction) -/
+theorem C15_inList_or (O : Table) (cols : List Name) (r : Row) (inner : List Row) (a : QExpr) (vs : List Val) :
+    evalS O cols r (.inList a vs) inner =
+      evalS O cols r (vs.foldl (fun acc v => QExpr.bin .or acc (.bin .eq a (.lit v))) (.lit (.bool false))) inner := by
+  simp only [evalS, inSem]
+  suffices h : ∀ (acc : QExpr) (av : Val), evalS O cols r acc inner = av →
+      vs.foldl (fun acc v => or3 acc (binSem .eq (evalS O cols r a inner) v)) av =
+        evalS O cols r (vs.foldl (fun acc v => QExpr.bin .or acc (.bin .eq a (.lit v))) acc) inner from
+    h (.lit (.bool false)) (.bool false) rfl
+  induction vs with
+  | nil => intro acc av h; simp [h]
+  | cons v rest ih =>
+    intro acc av h
+    simp only [List.foldl_cons]
+    apply ih
+    simp [evalS, binSem, h]
+
+/-- on expressions of the shared Core language the semantics used here is Core/Expr's `eval`, whatever
+    the (outer) qualifier and however many subquery rows are open — when no name is a subquery column -/
+theorem C15_core_embedding (O : Table) (cols : List Name) (r : Row) (q : Qual) (hq : q ≠ .sub) (e : Expr) :
+    evalS O cols r (ofCore q e) [] = eval cols r e := by
+  induction e with
+  | col n => cases q <;> simp_all [ofCore, evalS, resolve, eval]
+  | lit v => rfl
+  | bin op a b iha ihb => simp [ofCore, evalS, eval, iha, ihb]
+  | not a ih => simp [ofCore, evalS, eval, ih]
+  | neg a ih => simp only [ofCore, evalS, eval, ih]; cases eval cols r a <;> rfl
+  | isNull a ih => simp [ofCore, evalS, eval, ih]
+  | ite c t e ihc iht ihe => simp [ofCore, evalS, eval, ihc, iht, ihe]
+
 /-- **Omitted predicate.** `where=None` selects every row: update assigns on all rows, delete empties the table. -/
-theorem C15_no_pred (sets : List (Name × QExpr)) (ral : Bool) (T : Table) (hwf : (Dml.update sets .absent ral).WF)
-    (hs : InScope genFlags (.update sets .absent ral)) :
-    applyDml genFlags (.delete .absent) T = some { T with rows := [] } ∧
-    applyDml genFlags (.update sets .absent ral) T =
-      (if sets.all (fun s => decide (s.1 ∈ T.cols) && refsIn T.cols s.2.strip) && decide (sets.map (·.1)).Nodup
-       then some { T with rows := T.rows.map (assignRow T.cols (sets.map (fun s => (s.1, s.2.strip)))) } else none) := by
+theorem C15_no_pred (O : Table) (sets : List (Name × QExpr)) (ral : Bool) (T : Table) (hwf : (Dml.update sets .absent ral).WF)
+    (hs : InScope genFlags O.cols (.update sets .absent ral)) :
+    applyDml genFlags O (.delete .absent) T = some { T with rows := [] } ∧
+    applyDml genFlags O (.update sets .absent ral) T =
+      (if setsBind userScope O.cols T.cols sets
+       then some { T with rows := T.rows.map (assignRow O T.cols sets) } else none) := by
   constructor
   · have hd : (Dml.delete .absent).WF := by simp [Dml.WF, PredIn.quals, PredIn.sqlBare]
-    have hsd : InScope genFlags (.delete .absent) := by
-      refine ⟨Or.inr (Or.inr (by simp [Dml.sets])), Or.inr (Or.inr (by simp [Dml.pred, PredIn.quals])), Or.inr (by simp [Dml.pred, PredIn.isSql]), Or.inr rfl⟩
-    rw [C15_delete .absent T hd hsd]
-    simp [specPred, refsIn, Expr.refs, eval, isTrue]
-  · rw [C15_update sets .absent ral T hwf hs]
-    simp only [specPred, refsIn, Expr.refs, List.all_nil, Bool.true_and, eval, isTrue]
-    simp
-    rfl
+    have hsd : InScope genFlags O.cols (.delete .absent) := by
+      refine ⟨Or.inr (by simp [Dml.sets]), Or.inr (by simp [Dml.pred, PredIn.quals]), Or.inr (by simp [Dml.pred, PredIn.isSql]), Or.inr rfl,
+        C15_capture_sound _ _, C15_dialect_sound _⟩
+    rw [C15_delete O .absent T hd hsd]
+    simp [specPred, binds, evalS, isTrue]
+  · rw [C15_update O sets .absent ral T hwf hs]
+    simp [specPred, binds, evalS, isTrue]
 
 /-- **Laziness.** Whatever is built — any number of update / delete calls, valid or not — the table is
     unchanged until an `execute()`. -/
-theorem C15_lazy (cs : List Cmd) (hb : ∀ c ∈ cs, ∃ d, c = .build d) : ∀ (s : Sess),
-    (runCmds genFlags cs s).tbl = s.tbl ∧ (runCmds genFlags cs s).lazies.length = s.lazies.length + cs.length := by
-  obtain ⟨_, _, _, _, _, _, _, _, hbe, _⟩ := flagsOk_iff genFlags C15_flags_sound
+theorem C15_lazy (O : Table) (cs : List Cmd) (hb : ∀ c ∈ cs, ∃ d, c = .build d) : ∀ (s : Sess),
+    (runCmds genFlags O cs s).tbl = s.tbl ∧ (runCmds genFlags O cs s).lazies.length = s.lazies.length + cs.length := by
+  obtain ⟨_, _, _, _, _, _, _, _, hbe, _, _, _⟩ := flagsOk_iff genFlags C15_flags_sound
   induction cs with
   | nil => intro s; simp [runCmds]
   | cons c rest ih =>
     intro s
     obtain ⟨d, rfl⟩ := hb c (List.mem_cons_self ..)
-    have := ih (fun c hc => hb c (List.mem_cons_of_mem _ hc)) (stepCmd genFlags (.build d) s)
+    have := ih (fun c hc => hb c (List.mem_cons_of_mem _ hc)) (stepCmd genFlags O (.build d) s)
     simp only [runCmds, List.foldl_cons] at this ⊢
     rw [this.1, this.2]
     simp only [stepCmd, hbe]
@@ -153,54 +260,91 @@ theorem C15_lazy (cs : List Cmd) (hb : ∀ c ∈ cs, ∃ d, c = .build d) : ∀ 
 
 /-- executing the i-th LazyExpression applies exactly the statement that call built, to the table as
     it is *then* -/
-theorem C15_execute (s : Sess) (i : Nat) (st : Stmt) (h : listGet s.lazies i = some (some st)) :
-    (stepCmd genFlags (.exec i) s).tbl = (execStmt st s.tbl).getD s.tbl ∧
-    (stepCmd genFlags (.exec i) s).lazies = s.lazies := by
-  obtain ⟨_, _, _, _, _, _, _, _, _, her⟩ := flagsOk_iff genFlags C15_flags_sound
+theorem C15_execute (O : Table) (s : Sess) (i : Nat) (st : Stmt) (h : listGet s.lazies i = some (some st)) :
+    (stepCmd genFlags O (.exec i) s).tbl = (execStmt O st s.tbl).getD s.tbl ∧
+    (stepCmd genFlags O (.exec i) s).lazies = s.lazies := by
+  obtain ⟨_, _, _, _, _, _, _, _, _, her, _, _⟩ := flagsOk_iff genFlags C15_flags_sound
   simp [stepCmd, h, her]
 
 /-- all statements of a sequence are in scope -/
-def C15.SeqOk (ds : List Dml) : Prop := ∀ d ∈ ds, d.WF ∧ InScope genFlags d
-instance (ds : List Dml) : Decidable (C15.SeqOk ds) := by unfold C15.SeqOk; exact inferInstance
+def C15.SeqOk (ocols : List Name) (ds : List Dml) : Prop := ∀ d ∈ ds, d.WF ∧ InScope genFlags ocols d
+instance (oc : List Name) (ds : List Dml) : Decidable (C15.SeqOk oc ds) := by unfold C15.SeqOk; exact inferInstance
 
 /-- **Sequences.** For every sequence of update / delete statements (induction), each built and
     executed in turn on whatever the previous ones left: the table is the fold of the specification. -/
-theorem C15_seq (ds : List Dml) (hok : C15.SeqOk ds) : ∀ T : Table, runDml genFlags ds T = specRun ds T := by
+theorem C15_seq (O : Table) (ds : List Dml) (hok : C15.SeqOk O.cols ds) : ∀ T : Table, runDml genFlags O ds T = specRun O ds T := by
   induction ds with
   | nil => intro T; rfl
   | cons d rest ih =>
     intro T
     have hd := hok d (List.mem_cons_self ..)
     simp only [runDml, specRun, List.foldl_cons]
-    rw [C15.dml_generic genFlags C15_flags_sound d T hd.1 hd.2]
+    rw [C15.dml_generic genFlags C15_flags_sound O d T hd.1 hd.2]
     exact ih (fun x hx => hok x (List.mem_cons_of_mem _ hx)) _
 
 /-! ### counterexamples for the scope hypotheses (witnesses replayed on the real code by the check) -/
 
 def C15.exT : Table := { cols := ["k", "z"], rows := [[.int 1, .int 10], [.int 2, .int 20], [.int 2, .int 20], [.null, .int 30]] }
+def C15.exO : Table := { cols := ["k", "w"], rows := [[.int 2, .int 5], [.int 7, .int 0], [.null, .int 9]] }
 
 /-- `tb.update({'z': tb['z'] + F.col('k')}, where=tb['k'] == 2)`: the unqualified `k` on the right-hand
     side falls into `else: raise ValueError` — no statement, nothing changes; the specification adds. -/
 theorem C15_cex_rhsUnqualified : Gen.Dml.rhsElseRaises = true → Gen.Dml.rhsMatches .none = false →
     let d := Dml.update [("z", .bin .add (.col .cte "z") (.col .none "k"))] (.expr (.bin .eq (.col .cte "k") (.lit (.int 2))) false) false
-    applyDml genFlags d C15.exT = none ∧
-    specDml d C15.exT = some { C15.exT with rows := [[.int 1, .int 10], [.int 2, .int 22], [.int 2, .int 22], [.null, .int 30]] } := by
+    applyDml genFlags C15.exO d C15.exT = none ∧
+    specDml C15.exO d C15.exT = some { C15.exT with rows := [[.int 1, .int 10], [.int 2, .int 22], [.int 2, .int 22], [.null, .int 30]] } := by
   decide
 
 /-- `tb.delete(where="k = 2")`: the string is taken for a column name; the statement does not bind.
     (Only a text that is one parenthesised expression, like "(k = 2)", gets parsed.) -/
 theorem C15_cex_predString : Gen.Dml.predStringParsed = false →
-    let d := Dml.delete (.sql (.bin .eq (.col .none "k") (.lit (.int 2))) "k = 2" false)
-    applyDml genFlags d C15.exT = none ∧
-    specDml d C15.exT = some { C15.exT with rows := [[.int 1, .int 10], [.null, .int 30]] } := by
+    let d := Dml.delete (.sql (.bin .eq (.col .none "k") (.lit (.int 2))) "k = 2" false false)
+    applyDml genFlags C15.exO d C15.exT = none ∧
+    specDml C15.exO d C15.exT = some { C15.exT with rows := [[.int 1, .int 10], [.null, .int 30]] } := by
   decide
 
 /-- `tb.update({'z': F.when(tb['k'] > 1, 1).otherwise(2)})`: the value keeps its automatic alias
     (`SET z = CASE … END AS when__k__`), which the engine rejects. -/
 theorem C15_cex_rhsAlias : Gen.Dml.rhsAliasStripped = false →
     let d := Dml.update [("z", .ite (.bin .gt (.col .cte "k") (.lit (.int 1))) (.lit (.int 1)) (.lit (.int 2)))] .absent true
-    applyDml genFlags d C15.exT = none ∧
-    specDml d C15.exT = some { C15.exT with rows := [[.int 1, .int 2], [.int 2, .int 1], [.int 2, .int 1], [.null, .int 2]] } := by
+    applyDml genFlags C15.exO d C15.exT = none ∧
+    specDml C15.exO d C15.exT = some { C15.exT with rows := [[.int 1, .int 2], [.int 2, .int 1], [.int 2, .int 1], [.null, .int 2]] } := by
+  decide
+
+/-- `tb.delete(where="k IN (SELECT k FROM o WHERE k > 1)")` when the predicate loop also re-targets bare
+    names: the statement becomes `… WHERE tb.k IN (SELECT tb.k FROM o WHERE tb.k > 1)` and removes every
+    row with k > 1 (as long as `o` has a row), the specification only those whose k occurs in `o`. -/
+theorem C15_cex_predCapture :
+    let fl := { genFlags with predMatches := fun q => decide (q = Qual.none) || Gen.Dml.predMatches q }
+    let T : Table := { cols := ["k", "z"], rows := [[.int 1, .int 10], [.int 2, .int 20], [.int 3, .int 30], [.null, .int 40]] }
+    let d := Dml.delete (.sql (.inSub (.col .none "k") (.col .none "k") (.bin .gt (.col .none "k") (.lit (.int 1)))) "k IN (SELECT k FROM o WHERE k > 1)" false false)
+    flagsOk fl = true ∧
+    applyDml fl C15.exO d T = some { T with rows := [[.int 1, .int 10], [.null, .int 40]] } ∧
+    specDml C15.exO d T = some { T with rows := [[.int 1, .int 10], [.int 3, .int 30], [.null, .int 40]] } := by
+  decide
+
+/-- `tb.delete(where='k = "z"')` on a table with string columns k, z, read by a lexer for which a
+    double-quoted token is an identifier: the statement compares the columns k and z; Spark SQL compares
+    k with the string 'z'. -/
+theorem C15_cex_predDialect :
+    let fl := { genFlags with predLex := lexOf "" }
+    let T : Table := { cols := ["k", "z"], rows := [[.str "z", .str "p"], [.str "q", .str "q"], [.null, .str "z"]] }
+    let d := Dml.delete (.sql (.bin .eq (.col .none "k") (.tok "z" true)) "k = \"z\"" false false)
+    flagsOk fl = true ∧
+    applyDml fl C15.exO d T = some { T with rows := [[.str "z", .str "p"], [.null, .str "z"]] } ∧
+    specDml C15.exO d T = some { T with rows := [[.str "q", .str "q"], [.null, .str "z"]] } := by
+  decide
+
+/-- OUTSIDE the property (`Dml.WF` asks for assignment values over the row's own columns), recorded because the
+    model contains it: the assignment-value loop re-targets bare names, so in
+    `tb.update({'z': F.expr("CASE WHEN k IN (SELECT k FROM o) THEN 1 ELSE 0 END")})` the subquery's own `k`
+    becomes `tb.k` and every row with a non-NULL k gets 1. -/
+theorem C15_cex_rhsCapture : Gen.Dml.rhsMatches .none = true →
+    let T : Table := { cols := ["k", "z"], rows := [[.int 1, .int 10], [.int 2, .int 20], [.int 3, .int 30], [.null, .int 40]] }
+    let d := Dml.update [("z", .ite (.inSub (.col .none "k") (.col .none "k") (.lit (.bool true))) (.lit (.int 1)) (.lit (.int 0)))] .absent true
+    ¬ d.WF ∧
+    applyDml genFlags C15.exO d T = some { T with rows := [[.int 1, .int 1], [.int 2, .int 1], [.int 3, .int 1], [.null, .int 0]] } ∧
+    specDml C15.exO d T = some { T with rows := [[.int 1, .int 0], [.int 2, .int 1], [.int 3, .int 0], [.null, .int 0]] } := by
   decide
 
 /-! ### non-vacuity -/
@@ -209,28 +353,54 @@ def C15.exSeq : List Dml :=
   [ .update [("z", .bin .add (.col .cte "z") (.col .cte "k"))] (.expr (.bin .gt (.col .none "k") (.lit (.int 1))) true) false,
     .update [("k", .col .cte "z"), ("z", .col .cte "k")] .absent false,                  -- swap: right-hand sides read the old row
     .delete (.expr (.bin .eq (.col .cte "z") (.lit .null)) false),                 -- NULL predicate: nothing deleted
-    .delete (.sql (.isNull (.col .none "z")) "(z IS NULL)" true) ]
+    .delete (.sql (.isNull (.col .none "z")) "(z IS NULL)" true false),
+    -- a correlated subquery, a bare name only the target has (z), one both have (k), one qualified with o
+    .delete (.sql (.inSub (.col .none "z") (.col .none "k") (.bin .gt (.col .sub "w") (.col .none "z"))) "z IN (SELECT k FROM o WHERE o.w > z)" false false),
+    .delete (.sql (.bin .or (.inList (.col .none "z") [.int 1]) (.not (.inList (.col .none "z") [.int 1]))) "z IN (1) OR NOT z IN (1)" false false) ]
 
-example : C15.SeqOk C15.exSeq := by decide
-example : runDml genFlags C15.exSeq C15.exT =
+example : C15.SeqOk C15.exO.cols C15.exSeq := by decide
+example : runDml genFlags C15.exO (C15.exSeq.take 4) C15.exT =
     { cols := ["k", "z"], rows := [[.int 10, .int 1], [.int 22, .int 2], [.int 22, .int 2]] } := by decide
+example : runDml genFlags C15.exO (C15.exSeq.take 5) C15.exT =
+    { cols := ["k", "z"], rows := [[.int 10, .int 1]] } := by decide
+example : runDml genFlags C15.exO (C15.exSeq.drop 5) { cols := ["k", "z"], rows := [[.int 1, .int 1], [.int 1, .null], [.int 1, .int 3]] } =
+    { cols := ["k", "z"], rows := [[.int 1, .null]] } := by decide
 example : (∀ q ∈ (QExpr.bin .add (.col .cte "z") (.col .none "k")).quals, userScope q = true) := by decide
-example : (runCmds genFlags [.build (.update [("z", .bin .add (.col .cte "z") (.col .cte "k"))] (.expr (.bin .gt (.col .none "k") (.lit (.int 1))) true) false), .build (.delete .absent), .exec 0] { tbl := C15.exT }).tbl =
+example : (runCmds genFlags C15.exO [.build (.update [("z", .bin .add (.col .cte "z") (.col .cte "k"))] (.expr (.bin .gt (.col .none "k") (.lit (.int 1))) true) false), .build (.delete .absent), .exec 0] { tbl := C15.exT }).tbl =
     { cols := ["k", "z"], rows := [[.int 1, .int 10], [.int 2, .int 22], [.int 2, .int 22], [.null, .int 30]] } := by decide
+/-- `C15_sql_reading` is about texts with tokens: a double-quoted one and a backslash escape -/
+example : evalS C15.exO ["s"] [.str "a\\b"] (.bin .eq (.col .none "s") ((QExpr.tok "a\\\\b" true).readTok sparkLex)) [] = .bool true := by decide
 
 /-! ### the full statement, for the record
 
-`C15_full_statement`: every update / delete over the three reference styles — in particular with
-`F.col('c')` on a right-hand side and with SQL-string predicates — has the specified effect.  On the
-pinned tree it is refuted by `C15_cex_rhsUnqualified`, `C15_cex_predString` and `C15_cex_rhsAlias`; `C15_update`,
-`C15_delete`, `C15_seq` prove it under `H_rhsUnqualified`, `H_predUnqualified` (true for every input on
-the pinned tree), `H_predString` and `H_rhsAlias`.
+`C15_full_statement`: every update / delete over the reference styles of the property has the specified
+effect.  `C15_update`, `C15_delete`, `C15_seq` prove it under `H_rhsUnqualified`, `H_predUnqualified`,
+`H_predString`, `H_rhsAlias`, `H_predCapture`, `H_predDialect`; on the pinned tree every one of them holds for
+every well-formed input (`C15_full`), after the three repairs recorded in /repo's history (the `C15_cex_*`
+theorems with a `Gen.Dml.… = …` premise describe the unrepaired decisions; `C15_cex_predCapture` /
+`C15_cex_predDialect` show what the two new hypotheses exclude).
 
-Assumed, not proved: the SQL meaning of UPDATE / DELETE itself (`sqlUpdate`, `sqlDelete`, Core/Expr's
-three-valued logic) and which qualifiers bind inside a DML statement (`dmlScope`) — validated against
-DuckDB by the correspondence stream.  Not modelled: typing of assignments (the generator only produces
-well-typed ones), `merge`. -/
+Assumed, not proved: the SQL meaning of UPDATE / DELETE itself (`sqlUpdate`, `sqlDelete`, `evalS`: Core/Expr's
+three-valued logic, IN, LIKE, name resolution inside a subquery), which qualifiers bind inside a DML statement
+(`dmlScope`), and sqlglot's lexers (`lexOf`) — validated against DuckDB / the installed sqlglot by the
+correspondence stream.  Not modelled: typing of assignments (the generator only produces well-typed ones),
+subqueries inside assignment values (`Dml.WF` asks for values over the row's own columns), `merge`. -/
 def C15_full_statement : Prop :=
-  ∀ (ds : List Dml) (T : Table), (∀ d ∈ ds, d.WF) → runDml genFlags ds T = specRun ds T
+  ∀ (O : Table) (ds : List Dml) (T : Table), (∀ d ∈ ds, d.WF) → runDml genFlags O ds T = specRun O ds T
+
+/-- on the pinned tree the scope hypotheses hold for every well-formed statement: the full statement -/
+theorem C15_full : C15_full_statement := by
+  intro O ds T hwf
+  apply C15_seq
+  intro d hd
+  have hw := hwf d hd
+  refine ⟨hw, ?_, Or.inl (by decide), Or.inl (by decide), Or.inl (by decide), C15_capture_sound _ _, C15_dialect_sound _⟩
+  -- the assignment loop raises for references it does not match: a well-formed value has only table['c'] / F.col('c')
+  right
+  intro s hs q hq
+  cases d with
+  | delete p => simp [Dml.sets] at hs
+  | update sets p ral =>
+    rcases hw.2.1 s hs q hq with h | h <;> (subst h; decide)
 
 end Sqlframe
